@@ -10,7 +10,40 @@ PID = "C17"
 LEVEL = "proof"
 LEAN_TARGETS = ["SyneTune.Props.C17"]
 DRIVER = "SyneTune/Drivers/Loop.lean"
-THEOREMS = []
+THEOREMS = [
+    "SyneTune.C17.stats_count",
+    "SyneTune.C17.stats_nan_never_enters",
+    "SyneTune.C17.stats_nan_never_enters_status",
+    "SyneTune.C17.stats_nan_never_enters_status_init",
+    "SyneTune.C17.stats_min",
+    "SyneTune.C17.stats_max",
+    "SyneTune.C17.stats_sum",
+    "SyneTune.C17.stats_is_numeric",
+    "SyneTune.C17.stats_latch",
+    "SyneTune.C17.stats_latch_forever",
+    "SyneTune.C17.update_overall",
+    "SyneTune.C17.update_per_trial",
+    "SyneTune.C17.update_keys_unique",
+    "SyneTune.C17.best_tuner_first_none",
+    "SyneTune.C17.best_tuner_first",
+    "SyneTune.C17.best_tuner_min",
+    "SyneTune.C17.best_tuner_max",
+    "SyneTune.C17.best_experiment_none",
+    "SyneTune.C17.best_experiment",
+    "SyneTune.C17.mode_lookup_name_one",
+    "SyneTune.C17.mode_lookup_name_many",
+    "SyneTune.C17.mode_lookup_index_of",
+    "SyneTune.C17.mode_lookup_index_of_mem",
+    "SyneTune.C17.mode_lookup_index_one",
+    "SyneTune.C17.mode_lookup_index_many",
+    "SyneTune.C17.mode_lookup_negative_index_one",
+    "SyneTune.C17.mode_lookup_negative_index_out_of_range",
+    "SyneTune.C17.mode_lookup_unknown_name",
+    "SyneTune.C17.mode_lookup_index_too_large",
+    "SyneTune.C17.rows",
+    "SyneTune.C17.rows_none",
+    "SyneTune.C17.rows_content",
+]
 TRUSTED = [
     "hand-written model lean/SyneTune/Model/{Tuner,TuningStatus}.lean tied to /repo by the loop correspondence stream",
     "pandas CSV writer/reader and Series.argmin/argmax (checked by correspondence only: frame written under a temporary "
